@@ -31,6 +31,9 @@ LIB_MACROS = [
     "DEFINE SWAP <ID> <ID> AS #0 := $0; $0 := $1; $1 := #0 END DEFINE",
     "DEFINE <ID> ADDTO <ID> AS $1 := RUN add WITH $1, $0 END END DEFINE",
     "DEFINE PRIO 40 <ID> + = <INT> AS $0 := $0 + $1 END DEFINE",
+    # a temporary that bounds two loops, and one that is assigned inside the loop it bounds
+    "DEFINE TWICEOVER <V> DO <P> OD AS #0 := $0; LOOP #0 DO $1 END; LOOP #0 DO $1 END END DEFINE",
+    "DEFINE DRAIN <V> DO <P> OD AS #0 := $0; LOOP #0 DO $1; #0 := 0 END END DEFINE",
 ]
 
 VARS = ["x", "y", "z", "u", "w"]
@@ -64,8 +67,10 @@ def stmt_lines(r, vars_, depth=0):
             cond = ["0", "+"] + cond
         return ([["IFZ"] + cond + ["THEN"]] + seq_lines(r, vars_, depth + 1) + [["ELSE"]]
                 + seq_lines(r, vars_, depth + 1) + [["FI"]])
-    if q < 0.68:
+    if q < 0.63:
         return [["REPEAT", r.choice([v, "2", "3"]), "TIMES"]] + seq_lines(r, vars_, depth + 1) + [["DONE"]]
+    if q < 0.68:
+        return [[r.choice(["TWICEOVER", "DRAIN"]), r.choice([v, "2", "3"]), "DO"]] + seq_lines(r, vars_, depth + 1) + [["OD"]]
     if q < 0.76:
         a, b = r.sample(vars_, 2)
         return [["SWAP", a, b]]
